@@ -235,6 +235,12 @@ class Engine:
                 continue
             if oc and len({o.ret for o in oc}) > 1:
                 tracked.add(dst["l"])
+        # flags: locals assigned a whole enum variant / boolean constant in two or more places (the Option / bool an extracted helper answers, once its body
+        # has been inlined into the caller: `ret = Some(x)` with the lock held on one path, `ret = None` after the unlock on the other)
+        for l, ds in body.defs.items():
+            ds = [d for d in ds if d[0] in body.reachable]
+            if len(ds) >= 2 and all(d[1] != "T" and (d[2][0] == "Agg" and d[2][1][0] == "Adt" or d[2][0] == "Use" and op_const(d[2][1]) is not None) for d in ds):
+                tracked.add(l)
         # forward closure: copies, negations, discriminants, is_ok-style helpers
         changed = True
         while changed:
